@@ -29,12 +29,12 @@ rm -rf $SNAP
 python3 - "$OUT" <<'PYEOF'
 import sys,os
 out=sys.argv[1]
-new=[l for l in open(out+".tmp")]
+new=[l for l in open(out+".tmp",newline="\n")]
 names={tuple(l.split("\t")[:2]) for l in new}
-old=[l for l in open(out)] if os.path.exists(out) else []
+old=[l for l in open(out,newline="\n") if "\t" in l and l[:1] in "CGAr"] if os.path.exists(out) else []
 keep=[l for l in old if tuple(l.split("\t")[:2]) not in names]
 rows=sorted(keep+new)
-open(out,"w").writelines(rows)
+open(out,"w",newline="\n").writelines(rows)
 os.remove(out+".tmp")
 PYEOF
  awk -F'\t' '$3!=0' $OUT; echo "guards: $(awk -F'\t' '$3==0' $OUT | wc -l) check runs at exit 0, $(awk -F'\t' '$3!=0' $OUT | wc -l) not"
